@@ -24,6 +24,7 @@
 
 #include <atomic>
 #include <condition_variable>
+#include <exception>
 #include <mutex>
 #include <thread>
 #include <type_traits>
@@ -164,7 +165,14 @@ class _op<Receiver>::type : task_base {
           return;
         }
       }
-      unifex::set_value((Receiver &&) op.receiver_);
+      if constexpr (is_nothrow_receiver_of_v<Receiver>) {
+        unifex::set_value((Receiver &&) op.receiver_);
+      } else {
+        UNIFEX_TRY { unifex::set_value((Receiver &&) op.receiver_); }
+        UNIFEX_CATCH(...) {
+          unifex::set_error((Receiver &&) op.receiver_, std::current_exception());
+        }
+      }
     };
   }
 
